@@ -345,6 +345,32 @@ def run(tier, seed):
                                     (modname, nm_, float(np.abs(got_ - want_).max()) if got_.shape == (3, 3) else -1), {"call": nm_, "module": modname})
                 except Exception as ex_:
                     v.violation("xfab.%s.%s raised %r for integer-typed arguments" % (modname, nm_, ex_), {"call": nm_, "module": modname})
+    # rotations that are PRODUCTS of rotations (what a misorientation or a change of reference frame is): orthonormal to rounding, with
+    # entries that exceed 1 by an ulp on either side - exactly at gimbal lock (R'.R), at PHI = pi (R'.R.Rx(pi)) and generic
+    prods = []
+    for _ in range(150 if tier == "quick" else 3000):
+        Ra = Rz(rng.uniform(0, 6.28)).dot(Rx(rng.uniform(0, 3.14))).dot(Rz(rng.uniform(0, 6.28)))
+        flip = np.diag([1.0, -1.0, -1.0])
+        prods += [Ra.T.dot(Ra), Ra.T.dot(Ra).dot(Rz(rng.uniform(0, 6.28))), Ra.T.dot(Ra).dot(flip), Ra.T.dot(Rz(rng.uniform(0, 6.28))).dot(Ra)]
+    for modname in ("tools", "laue"):
+        mod = importlib.import_module("xfab." + modname)
+        for Up in prods:
+            ncalls += 1
+            v.case(("product", modname, len(prods)))
+            try:
+                e = np.asarray(mod.u_to_euler(Up), dtype=float)
+                ok_ = e.shape == (3,) and np.all(np.isfinite(e)) and np.all(e >= 0) and e[0] <= 2 * math.pi and e[1] <= math.pi and e[2] <= 2 * math.pi
+                if ok_:
+                    Rb = Rz(e[0]).dot(Rx(e[1])).dot(Rz(e[2]))
+                    ok_ = np.abs(Rb - Up).max() <= 1e-6
+                if not ok_:
+                    v.violation("xfab.%s.u_to_euler of a product of rotations (U33 - 1 = %.2e, |U33| - 1 = %.2e) returns %s: not finite angles in range that "
+                                "rebuild the matrix to 1e-6" % (modname, Up[2, 2] - 1, abs(Up[2, 2]) - 1, e.tolist()), {"U": Up.tolist(), "module": modname})
+                    break
+            except Exception as ex_:
+                v.violation("xfab.%s.u_to_euler raised %r on a product of rotations (|U33| - 1 = %.2e)" % (modname, ex_, abs(Up[2, 2]) - 1),
+                            {"U": Up.tolist(), "module": modname})
+                break
     hts = []
     for size in (3e4, 1e5, 1e6, 1e7, 6e7):
         for _ in range(6 if tier == "quick" else 80):
